@@ -20,6 +20,9 @@ func init() {
 		Mutant{Name: "write-deadline-from-afterfunc", File: "client.go", Old: "\tn, err := c.writer.Flush()\n\tif err != nil {\n\t\treturn err\n\t}", New: "\tstop := context.AfterFunc(ctx, func() {\n\t\t_ = c.conn.SetWriteDeadline(time.Now())\n\t})\n\tdefer stop()\n\tn, err := c.writer.Flush()\n\tif err != nil {\n\t\treturn err\n\t}", Rule: "C04.async", Construct: "flush"},
 		Mutant{Name: "handshake-arms-read-deadline", File: "handshake.go", Old: "\t\tif err := c.decode(&c.server); err != nil {", New: "\t\tif d, ok := ctx.Deadline(); ok {\n\t\t\tif err := c.conn.SetReadDeadline(d); err != nil {\n\t\t\t\treturn errors.Wrap(err, \"set read deadline\")\n\t\t\t}\n\t\t}\n\t\tif err := c.decode(&c.server); err != nil {", Rule: "C04.disarm", Construct: "handshake"},
 	)
+	add("C04",
+		Mutant{Name: "flag-for-any-wrapped-exception", File: "query.go", Old: "if code == proto.ServerCodeException && IsException(err) {", New: "if IsException(err) {", Rule: "C04.exception-flag", Construct: "/own"},
+	)
 	add("C05",
 		Mutant{Name: "method-checked-before-checksum", File: "compress/reader.go", Old: "\tr.data = append(r.data[:0], make([]byte, dataSize)...)\n", New: "\tif m := methodEncoding(r.header[hMethod]); m != encodedLZ4 && m != encodedZSTD && m != encodedNone {\n\t\treturn errors.Errorf(\"compression 0x%02x not implemented\", m)\n\t}\n\tr.data = append(r.data[:0], make([]byte, dataSize)...)\n", Rule: "C05.verify", Construct: "method-before-verify"},
 		Mutant{Name: "writeto-hands-out-whole-frame", File: "compress/reader.go", Old: "// NewReader returns new *Reader from r.\n", New: "// WriteTo implements io.WriterTo.\nfunc (r *Reader) WriteTo(w io.Writer) (n int64, err error) {\n\tfor {\n\t\tif r.pos < int64(len(r.data)) {\n\t\t\tm, err := w.Write(r.data)\n\t\t\tn += int64(m)\n\t\t\tif err != nil {\n\t\t\t\treturn n, err\n\t\t\t}\n\t\t\tr.pos = int64(len(r.data))\n\t\t}\n\t\tif err := r.readBlock(); err != nil {\n\t\t\tr.data = r.data[:0]\n\t\t\tr.pos = 0\n\t\t\treturn n, errors.Wrap(err, \"read next block\")\n\t\t}\n\t}\n}\n\n// NewReader returns new *Reader from r.\n", Rule: "C05.cursor", Construct: "WriteTo"},
@@ -46,6 +49,9 @@ func init() {
 	)
 	add("C13",
 		Mutant{Name: "handshake-timeout-default-is-read-timeout", File: "client.go", Old: "\t\to.HandshakeTimeout = DefaultHandshakeTimeout", New: "\t\to.HandshakeTimeout = DefaultReadTimeout", Rule: "C13.defaults", Construct: "Options.HandshakeTimeout"},
+	)
+	add("C13",
+		Mutant{Name: "wide-packet-code-truncated", File: "client.go", Old: "if uint64(code) != n || !code.IsAServerCode() {", New: "if !code.IsAServerCode() {", Rule: "C13.codewidth", Construct: "packet"},
 	)
 	add("C15",
 		Mutant{Name: "ensure-rounds-length-up", File: "proto/buffer.go", Old: "\tb.Buf = append(b.Buf[:0], make([]byte, n)...)", New: "\tb.Buf = append(b.Buf[:0], make([]byte, (n+7)&^7)...)", Rule: "C15.ensure", Construct: "Ensure"},
